@@ -2371,8 +2371,12 @@ impl RaftNode {
                 // Update commit index
                 let mut volatile = self.volatile.write();
                 if ae.leader_commit > volatile.commit_index {
-                    volatile.commit_index =
-                        ae.leader_commit.min(persistent.array_len_as_log_index());
+                    // Entries beyond the last one carried by this request are not
+                    // known to match the leader's log and must not be committed.
+                    volatile.commit_index = ae
+                        .leader_commit
+                        .min(last_new_index)
+                        .max(volatile.commit_index);
                 }
             }
         }
